@@ -4,7 +4,8 @@ import importlib
 import os
 import sys
 
-sys.path.insert(0, "/repo")
+REPO = os.environ.get("VERIF_REPO", "/repo")
+sys.path.insert(0, REPO)
 sys.path.insert(0, os.path.dirname(os.path.abspath(__file__)))
 os.environ.setdefault("PYTHONHASHSEED", "0")
 
@@ -25,8 +26,8 @@ def main():
     if a.tier not in ("quick", "thorough"):
         a.tier = "quick"
     import demes
-    if not os.path.abspath(demes.__file__).startswith("/repo/"):
-        print("demes was not imported from /repo: " + demes.__file__)
+    if not os.path.abspath(demes.__file__).startswith(REPO + "/"):
+        print("demes was not imported from %s: " % REPO + demes.__file__)
         sys.exit(2)
     mod = importlib.import_module("props." + a.prop.lower())
     chk = common.Check(a.prop.upper(), a.tier, a.seed)
